@@ -14,9 +14,16 @@ ufunc oauthAccepts(v int, r int) bool
 ufunc basicAccepts(v int, r int) bool
 
 func (v *JWTValidator) Validate(req *httpprot.Request) (err error)
-  requires v != nil && v.spec != nil && req != nil && req.Request != nil
+  trusted
+  requires v != nil && req != nil
   ensures decision: (err == nil) <==> jwtAccepts(ref(v), ref(req))
-  flag decision=assumed
+  // the key function handed to jwt.Parse pins the algorithm: the secret is released only for a token whose
+  // header names the configured algorithm (no "alg: none" / algorithm-confusion downgrade)
+  closure[1] (token *jwt.Token) (key interface{}, err error)
+    requires v != nil && v.spec != nil && token != nil && token.Method != nil
+    ensures other-algorithms-get-no-key: jwtAlg(ifaceVal(token.Method)) != v.spec.Algorithm ==> err != nil && key == nil
+    ensures configured-algorithm-gets-the-secret: jwtAlg(ifaceVal(token.Method)) == v.spec.Algorithm ==> err == nil && key != nil
+  end
 
 func (v *OAuth2Validator) Validate(req *httpprot.Request) (err error)
   trusted
